@@ -36,6 +36,17 @@ Theorem C17_contains : forall w ops k,
 Proof. exact contains_spec. Qed.
 Print Assumptions C17_contains.
 
+(* copy() shows the wrapped entries overlaid by the buffer: the latest buffered write of a key, nothing for a key
+   whose latest buffered action is a delete, the wrapped value otherwise (a dict has no duplicate keys: NoDup). *)
+Theorem C17_copy : forall w ops k, NoDup (akeys (cells w)) ->
+  aget (scopy (fst (srun (scratch_new w) ops))) k =
+  match last_action ops k with
+  | Some (Some v) => Some v
+  | Some None => None
+  | None => aget (cells w) k
+  end.
+Proof. exact copy_spec. Qed.
+
 (* Normal exit: last write wins, deletes applied only if requested, buffer empty. *)
 Theorem C17_commit : forall w ops dd,
   budget w = None ->
@@ -99,3 +110,4 @@ Example C17_example :
 Proof. vm_compute. repeat split. Qed.
 Print Assumptions C17_nested_read.
 Print Assumptions C17_nested_commit.
+Print Assumptions C17_copy.
